@@ -33,7 +33,7 @@ HCbb(e) ==
   ELSE Rej("c01.callback_not_allowed." \o e.st)
 
 HRet(e) ==
-  IF Len(stack) > 0 /\ Top.k = "api" /\ Top.api = e.api /\ Top.owe # {} THEN Rej("c01." \o e.api \o "_left_requests_pending")
+  IF Len(stack) > 0 /\ Top.k = "api" /\ Top.api = e.api /\ Top.owe # {} /\ ~CanRet(e.api) THEN Rej("c01." \o e.api \o "_left_requests_pending")
   ELSE IF CanRet(e.api) THEN DoRet(e.api) /\ Acc
   ELSE Rej("c01.return_with_open_callback")
 
